@@ -5,7 +5,7 @@ from . import common
 from . import driver as D
 from . import history as Hh
 
-DEPTH = {"quick": 10, "thorough": 14}
+DEPTH = {"quick": 10, "thorough": 20}
 
 
 def _explore_task(task):
